@@ -172,6 +172,7 @@ func New(cfg Config) (c *Chain, err error) {
 	var ftfDep cctptypes.FiatTokenfactoryKeeper
 	if cfg.Double {
 		c.Ledger = NewLedgerDouble(runtime.NewKVStoreService(c.Keys["ledgerdouble"]), cfg.Fold)
+		c.Ledger.MintingDenom = cfg.MintDenom
 		bankDep, ftfDep = c.Ledger, c.Ledger
 	} else {
 		bankDep, ftfDep = c.Bank, c.FTF
